@@ -178,7 +178,10 @@ def gen_task(rng, c=None):
                 # prototype on which the filter had been looked up before
                 'host_copied': rng.random() < 0.2,
                 'pre': [[rng.choice(('nop', 'inner', 'yield'))]
-                        for _ in range(rng.randint(0, 3))]}
+                        for _ in range(rng.randint(0, 3))],
+                # the hosts compare (and hash) equal although they are two
+                # objects with two predicates (value objects: C09-r9-2)
+                'host_eq': rng.random() < 0.5}
     return {'c': 'D', 'exc': rng.choice(EXC_KINDS_EXCEPTION),
             'state': rng.choice(('file', 'file', 'missing', 'dir', 'file',
                                  'dangling', 'symlink', 'loop')),
@@ -453,6 +456,13 @@ class Real:
             def __init__(self):
                 self.seen = []
 
+            if s.get('host_eq'):
+                def __eq__(self_, o):
+                    return type(o) is type(self_)
+
+                def __hash__(self_):
+                    return 7
+
             @ef
             def ignore(self_, ex):
                 self_.seen.append(ex)
@@ -470,6 +480,9 @@ class Real:
             holder.accept = accept
             holder.seen = []
             self.notes['host_copied'] = True
+            if s.get('host_eq'):
+                self.notes['host_eq'] = True
+                self.keep = proto          # the prototype stays alive
         if mode.startswith('bound'):
             filt = holder.ignore
         elif mode == 'decorated_call':
